@@ -75,7 +75,10 @@ theorem takeWhile_word (w r : Bytes) (hw : wordOK w = true) (hr : endOK r = true
     · simp at hc; subst hc; decide
     · simp at hc; subst hc; decide
     · cases hr
-  exact TyParse.takeWhile_append_stop _ w r (fun x hx => by simpa using hw.2 x hx) hstop
+  exact TyParse.takeWhile_append_stop _ w r (fun x hx => by
+    have := hw.2 x hx
+    simp only [Bool.and_eq_true, bne_iff_ne, ne_eq] at this ⊢
+    exact ⟨this.1.1.1, this.1.1.2⟩) hstop
 
 theorem readVal_print (vk : VK) (v : FVal) (r : Bytes) (hv : valOK vk v = true) (hr : endOK r = true) :
     readVal vk (valString v ++ r) = some (v, r) := by
@@ -98,9 +101,7 @@ theorem readVal_print (vk : VK) (v : FVal) (r : Bytes) (hv : valOK vk v = true) 
     obtain ⟨hk, hw⟩ := hv
     subst hk
     obtain ⟨h1, h2⟩ := takeWhile_word w r hw hr
-    have hne : w.isEmpty = false := by
-      simp only [wordOK, Bool.and_eq_true, Bool.not_eq_true'] at hw; exact hw.1
-    simp only [valString, readVal, h1, h2, hne, Bool.false_eq_true, if_false]
+    simp only [valString, readVal, h1, h2, hw, if_true]
 
 /-! ### fields -/
 
